@@ -732,9 +732,10 @@ class C16(Prop):
             if state['fut'] is not None and not state['fut'].done():
                 state['fut'].set_result(None)
 
-        async def mid_tick():
-            """Wait for the next pass of the polling loop, then half a tick: we act between two passes whatever the
-            phase of the loop is (clock jumps shift it)."""
+        async def next_pass():
+            """Wait for the first polling pass of a new instant. We resume in the loop iteration right after that pass,
+            BEFORE the port's evaluation task (our wake-up is scheduled while the pass reads the first source port,
+            the evaluation is queued at the end of the pass)."""
             for _ in range(10):
                 await asyncio.sleep(0)
             called = self.loop.time()
@@ -745,6 +746,11 @@ class C16(Prop):
                     raise _Spin()
                 if self.loop.time() > called:          # passes of the current instant (after a write) do not count
                     break
+
+        async def mid_tick():
+            """Wait for the next pass of the polling loop, then half a tick: we act between two passes whatever the
+            phase of the loop is (clock jumps shift it)."""
+            await next_pass()
             await asyncio.sleep(tick / 2)
 
         self.on_pass = on_pass
@@ -764,8 +770,23 @@ class C16(Prop):
             if neutralise:
                 y.get_expression().is_asap_eval_paused = lambda now_ms: False
             jumps = dict((k, j) for k, j in case['jumps'])
+            inject = dict((k, ch) for k, ch in case.get('inject', []))
+            extra = set(case.get('extra', []))
             for k in range(case['ticks']):
-                await mid_tick()
+                await next_pass()
+                if k in inject:
+                    # a source changes right after the tick's pass and a second pass (what the confirming pass after
+                    # any port write is on a real hub) sees it before the port's queued evaluation has run
+                    now_ms = int(time.time() * 1000)
+                    for p, v in inject[k].items():
+                        # stable sort: the injected entry wins over a scripted one of the same millisecond
+                        self.src[p].script = sorted(self.src[p].script + [(now_ms, v)], key=lambda x: x[0])
+                    await self.core_main.update()
+                await asyncio.sleep(tick / 2)
+                if k in extra:
+                    await self.core_main.update()       # an extra pass between two ticks
+                    for _ in range(10):
+                        await asyncio.sleep(0)
                 if k in jumps:
                     self.loop.advance(jumps[k] / 1000.0)
             await mid_tick()
@@ -783,13 +804,16 @@ class C16(Prop):
         return t0, passes
 
     @staticmethod
-    def _ticks_of(passes):
-        """Collapse the passes of one instant: (now, sources, y before the first pass of that instant)."""
+    def _instants(passes):
+        """Group the passes by instant: [(now, [source snapshots in pass order, consecutive duplicates collapsed],
+        y before the first pass of that instant)]."""
         out = []
         for now, srcs, yv in passes:
             if out and out[-1][0] == now:
+                if out[-1][1][-1] != srcs:
+                    out[-1][1].append(srcs)
                 continue
-            out.append((now, srcs, yv))
+            out.append((now, [srcs], yv))
         return out
 
     def _run_loop(self, case, driver):
@@ -799,17 +823,23 @@ class C16(Prop):
         t0b, p2 = self.loop.run_until_complete(self._loop_run(case, True)) if p1 is not None else (None, None)
         if p1 is None or p2 is None:
             return None, {'tags': ['loop', 'spinning-expression'], 'key': None, 'observed': {'expr': text}}
-        tk1, tk2 = self._ticks_of(p1), self._ticks_of(p2)
-        # y after tick k = y seen at the first pass of tick k+1
-        s1 = [(tk1[i][0] - t0a, tk1[i + 1][2]) for i in range(len(tk1) - 1)]
-        s2 = [(tk2[i][0] - t0b, tk2[i + 1][2]) for i in range(len(tk2) - 1)]
+        in1, in2 = self._instants(p1), self._instants(p2)
+        # y after instant k = y seen at the first pass of instant k+1
+        s1 = [(in1[i][0] - t0a, in1[i + 1][2]) for i in range(len(in1) - 1)]
+        s2 = [(in2[i][0] - t0b, in2[i + 1][2]) for i in range(len(in2) - 1)]
         names = set(fn_names(tree))
         tags = {'loop', 'top:' + tree[1], f'depth{depth(tree)}'} | {'fn:' + n for n in names}
         if case['jumps']:
             tags.add('clock-jump')
+        if case.get('inject'):
+            tags.add('second-pass-with-change')
+        if case.get('extra'):
+            tags.add('extra-pass')
         fail = None
         if [t for t, _ in s1] != [t for t, _ in s2]:
-            raise RuntimeError(f'loop runs not aligned: {[(i, a, b) for i, (a, b) in enumerate(zip(s1, s2)) if a[0] != b[0]][:3]} {len(s1)} {len(s2)}')
+            raise RuntimeError(f'loop runs not aligned: '
+                               f'{[(i, a, b) for i, (a, b) in enumerate(zip(s1, s2)) if a[0] != b[0]][:3]} '
+                               f'{len(s1)} {len(s2)}')
         for k, ((t, a), (_, b)) in enumerate(zip(s1, s2)):
             if a != b:
                 fail = Failure('property',
@@ -819,77 +849,81 @@ class C16(Prop):
                 break
         if len({v for _, v in s1}) >= 2:
             tags.add('loop-value-changes')
-        n_eval_skipped = len(p2) - len(p1)
         self_ref = any(n[0] == 'S' for n in walk(tree))
         idem = not (has_asap(tree) and (names & (EDGE - {'HYST'}))) and not self_ref
         if fail is None and idem:
-            # reference A: a fresh copy evaluated once per tick on the observed source values
+            # reference A: a fresh copy evaluated once per pass that saw new source values (once per instant otherwise)
             tags.add('fresh-copy-reference')
             deps = sorted({n[1] for n in walk(tree) if n[0] == 'P'})
             asap = has_asap(tree)
-            trigs = []
+            steps = []          # per instant: [(now, srcs, dependency changed?)]
             prev = None
-            for now, srcs, _ in tk1:
-                cur = [srcs[p] for p in deps]
-                trigs.append(prev is None or cur != prev)
-                prev = cur
-            ref = self.loop.run_until_complete(self._fresh_series(text, tk1, [asap or t for t in trigs]))
-            got = [tk1[i + 1][2] for i in range(len(tk1) - 1)]
+            for now, snaps, _ in in1[:-1]:
+                cur_steps = []
+                for srcs in snaps:
+                    cur = [srcs[p] for p in deps]
+                    cur_steps.append((now, srcs, prev is None or cur != prev))
+                    prev = cur
+                steps.append(cur_steps)
+            ref = self.loop.run_until_complete(self._fresh_series(text, in1[0][2], steps, asap))
+            got = [in1[i + 1][2] for i in range(len(in1) - 1)]
             for k, (a, b) in enumerate(zip(got, ref)):
                 if a != b:
                     fail = Failure('property',
-                                   f'{text}: at tick {k} (+{tk1[k][0] - t0a} ms) the port is {a!r} under the polling '
+                                   f'{text}: at tick {k} (+{in1[k][0] - t0a} ms) the port is {a!r} under the polling '
                                    f'loop but a fresh copy evaluated on every tick gives {b!r}',
                                    real={'with-skipping': s1[:80], 'every-tick': ref[:80]})
                     break
-            # the model's loop
+            # the model: the same passes queue evaluations, the evaluation task runs at the end of the instant
             if fail is None:
                 consts = self.consts
                 assert driver.ask(f'params {consts["H"]} {consts["Q"]} {consts["Qm"]} {consts["thr"]} 1') == 'ok'
                 assert driver.ask('expr ' + ' '.join(to_tokens(tree))) == 'ok'
                 model = []
                 skipped = 0
-                for i in range(len(tk1) - 1):
-                    now, srcs, _ = tk1[i]
-                    trig = 1 if trigs[i] else 0
-                    env = ' '.join('-' if srcs[p] is None else fhex(srcs[p]) for p in PORTS)
-                    rep = driver.ask(f'tick {now} {trig} {env}').split()
+                for inst in steps:
+                    for now, srcs, trig in inst:
+                        env = ' '.join('-' if srcs[p] is None else fhex(srcs[p]) for p in PORTS)
+                        rep = driver.ask(f'qpass {now} {1 if trig else 0} {env}').split()
+                        assert rep[0] == 'ok', rep
+                        skipped += rep[1] == 's'
+                    rep = driver.ask('qrun').split()
                     assert rep[0] == 'ok', rep
-                    skipped += rep[1] == 's'
                     model.append(None if rep[2] == 'none' else unhex(rep[2]))
                 if skipped:
                     tags.add('model-skipped-ticks')
                 for k, (a, b) in enumerate(zip(got, model)):
                     if a != b:
                         fail = Failure('correspondence',
-                                       f'{text}: loop tick {k} (+{tk1[k][0] - t0a} ms): real port {a!r}, model {b!r}',
+                                       f'{text}: loop tick {k} (+{in1[k][0] - t0a} ms): real port {a!r}, model {b!r}',
                                        real=got[:80], model=model[:80])
                         break
-        if n_eval_skipped > 0 or len(p1) != len(p2):
+        if len(p1) != len(p2):
             tags.add('passes-differ')
         key = None
         if len({v for _, v in s1}) >= 2:
             key = [text, [v for _, v in s1][:60]]
         return fail, {'tags': sorted(tags), 'key': key, 'observed': {'expr': text, 'series': s1[:12]}}
 
-    async def _fresh_series(self, text, ticks, evaluate):
-        """A fresh copy of the expression evaluated once per tick (expressions without an `asap` dependency: once
-        per tick in which one of their ports changed), with the port following the outcome."""
+    async def _fresh_series(self, text, y0, steps, asap):
+        """A fresh copy of the expression evaluated at every tick (expressions without an `asap` dependency: whenever
+        one of their ports changed), once more within an instant when a later pass of that instant saw other source
+        values; the port follows the outcomes. Returns the port value at the end of each instant."""
         cexp = self.cexp
         expr = cexp.parse('y', text, cexp.ROLE_VALUE)
-        yv = ticks[0][2]
+        yv = y0
         out = []
-        for (now, srcs, _), ev in zip(ticks[:-1], evaluate):
-            if not ev:
-                out.append(yv)
-                continue
-            vals = dict(srcs)
-            vals['y'] = yv
-            r = await self._real_eval(expr, vals, now)
-            if r[0] == 'v':
-                yv = unhex(r[1])
-            elif r[1] == 'unavailable':
-                yv = None
+        for inst in steps:
+            for now, srcs, trig in inst:
+                if not (asap or trig):
+                    continue
+                vals = dict(srcs)
+                vals['y'] = yv
+                r = await self._real_eval(expr, vals, now)
+                if r[0] == 'v':
+                    yv = unhex(r[1])
+                elif r[1] == 'unavailable':
+                    yv = None
             out.append(yv)
         return out
 
